@@ -13,6 +13,12 @@ if [ -d fixtures ]; then
     esac
   done
 fi
+# stub executables named like the commands delta wraps
+mkdir -p build/fixtures/bin
+if [ -x build/fixtures/stubcmd ]; then
+  cp build/fixtures/stubcmd build/fixtures/bin/git
+  cp build/fixtures/stubcmd build/fixtures/bin/rg
+fi
 python3 - <<'PY'
 import sys
 sys.path.insert(0, ".")
